@@ -4,6 +4,8 @@ import BSModel.Proofs.HeapExtract
 import BSModel.Proofs.HeapLink
 import BSModel.Proofs.HeapSmooth
 import BSModel.Proofs.HeapDecomposeEffect
+import BSModel.Proofs.HeapCopySpec
+import BSModel.Proofs.HeapCopyTotal
 /-! # C02 — each editing call has exactly its documented effect on tree shape
 
 The forest is the pair (children lists, parent fields) of the pointer heap. The theorems give the closed form
@@ -291,6 +293,52 @@ theorem clear_decompose_effect {h h' : Heap} {t : Nat} (hg : Good2 h) (hd : clea
 /-- `clear(decompose=True)` never fails on a consistent forest -/
 theorem clear_decompose_never_fails {h : Heap} (t : Nat) (hg : Good2 h) : ∃ h', clearDecompose h t = .ok h' :=
   clearDecompose_total t hg
+
+/-! ### copies (`copy.copy(el)` / `copy.deepcopy(el)` / `el.__copy__()`; Model/HeapCopy.lean) -/
+
+/-- **copy**: the call allocates the clone `c` and nothing else moves: every object that existed keeps its parent and its children
+    list (and its class and text) — no element is lost; the objects of the copy are exactly the ids allocated by the call, each occurs
+    once in the document order of the clone (no element is duplicated: the copy shares no object with any tree), there are as many as
+    in the subtree copied, and the clone has no parent; the forest stays consistent -/
+theorem copy_effect {h h' : Heap} {x c : Nat} (hg : Good2 h) (hc : copy h x = .ok (h', c)) :
+    Good2 h' ∧ c = h.next ∧ h'.parent c = none ∧
+    (∀ n, n < h.next → h'.kids n = h.kids n ∧ h'.parent n = h.parent n ∧ h'.kind n = h.kind n ∧ h'.val n = h.val n) ∧
+    (docOrder h' c).Nodup ∧ (∀ m, m ∈ docOrder h' c ↔ (h.next ≤ m ∧ m < h'.next)) ∧
+    h'.next - h.next = (docOrder h x).length := by
+  obtain ⟨rfl, w', st', inv⟩ := copy_cinv hg hc
+  obtain ⟨hg', hroot, hdoc, hlen⟩ := cinv_final inv
+  refine ⟨hg', rfl, hroot, ?_, docOrder_nodup inv.wf hroot, ?_, by rw [inv.len]⟩
+  · intro n hn
+    have := inv.frame n hn
+    exact ⟨this.2.1, this.1, this.2.2.2.2.2.2.1, this.2.2.2.2.2.2.2⟩
+  · intro m
+    rw [hdoc, List.mem_range'_1]
+    have := inv.lt
+    omega
+
+/-- **copy, element by element**: the copy of the `i`-th element of the subtree (document order) is the `i`-th object the call
+    allocates, it stands at index `i` of the document order of the clone, and it has the class and the text of its original (a copy of
+    a string is the case of a one-element subtree: one new parentless object of the same class and text) -/
+theorem copy_pointwise {h h' : Heap} {x c : Nat} (hg : Good2 h) (hc : copy h x = .ok (h', c)) :
+    ∀ i d, (docOrder h x)[i]? = some d → (docOrder h' c)[i]? = some (h.next + i) ∧ h'.kind (h.next + i) = h.kind d ∧
+      h'.val (h.next + i) = h.val d := by
+  obtain ⟨rfl, w', st', inv⟩ := copy_cinv hg hc
+  obtain ⟨_, hroot, hdoc, hlen⟩ := cinv_final inv
+  intro i d hi
+  have hlt : i < (docOrder h x).length := (List.getElem?_eq_some_iff.mp hi).1
+  refine ⟨?_, inv.img i d hi⟩
+  rw [hdoc, List.getElem?_range' (by rw [← inv.len]; exact hlt)]
+  simp
+
+/-- **on a consistent forest a copy never fails**: none of the model's error outcomes can occur, whatever is copied (a string, a tag with
+    any subtree, a BeautifulSoup object, an id that was never allocated) -/
+theorem copy_never_fails {h : Heap} (x : Nat) (hg : Good2 h) : ∃ h' c, copy h x = .ok (h', c) :=
+  copy_total x hg
+
+/-! non-vacuity: `t0` with children `[t1, s4]`, `t1` with children `[t2, s3]` (`wDeep` below): the copy of `t1` is `5 [6, 7]` -/
+example : ((run (Heap.init [.tag, .tag, .tag, .str, .str])
+    [.append 0 (.node 1), .append 1 (.node 2), .append 1 (.node 3), .append 0 (.node 4)]).bind fun h =>
+      (copy h 1).map (fun r => (r.2, r.1.kids 5, r.1.kids 1, r.1.kids 0))).toOption = some (5, [6, 7], [2, 3], [1, 4]) := by decide
 
 /-! ### negative positions: `insert` reads its position the way `list.insert` does -/
 
